@@ -127,6 +127,9 @@ func VerifyFunction(w *World, fn *ssa.Function, fc *FuncContract) (rep *FuncRepo
 		if t, ok := args[0].(PtrVal); ok {
 			vc.recvTerm = t.Loc.Idx[0]
 		}
+		if sv, ok := args[0].(StructVal); ok {
+			vc.recvStruct = &sv
+		}
 	}
 	env := &Env{vc: vc, heap: st.heap, old: vc.entry, vars: params}
 	if fc != nil {
